@@ -159,6 +159,27 @@ func (ex *Exec) readDense(cells []Value, idx *Term, elem types.Type) Value {
 	if len(cells) == 0 {
 		return ex.zero(elem)
 	}
+	// a table of strings indexed symbolically: "element idx of the table"
+	if _, isStr := cells[0].(string); isStr {
+		table := make([]string, len(cells))
+		for i, c := range cells {
+			s, ok := c.(string)
+			if !ok {
+				panic(needConcretize{idx})
+			}
+			table[i] = s
+		}
+		key := &cells[0]
+		if t, ok := ex.tables[key]; ok {
+			table = t
+		} else {
+			if ex.tables == nil {
+				ex.tables = map[*Value][]string{}
+			}
+			ex.tables[key] = table
+		}
+		return &SymStr{Table: table, Idx: idx}
+	}
 	// a run of consecutive bytes of one ideal stream is read as the stream itself
 	if nm, base, ok := uniformStream(cells); ok {
 		if v := ex.viewOf(nm); v != nil {
